@@ -53,6 +53,8 @@ pub fn obs_alphabet(tier: Tier) -> Vec<Obs> {
         Obs::R(3.0, 2),
         Obs::R(5.0, 0),
         Obs::R(f64::NAN, 1),
+        // an infinite mean over several occurrences (clamped after, not before, the division)
+        Obs::R(f64::NEG_INFINITY, 2),
     ];
     if tier == Tier::Thorough {
         v.extend([
@@ -65,6 +67,11 @@ pub fn obs_alphabet(tier: Tier) -> Vec<Obs> {
         ]);
     }
     v
+}
+
+/// 48 000 observations of 22-23 characters each: 1.2 MB of `Values` text in one record
+pub fn huge_obs() -> Vec<Obs> {
+    (0..48_000).map(|i| Obs::F((i as f64 + 0.123456789012345) * 1e-300)).collect()
 }
 
 /// a reduced observation alphabet for multi-value layers
